@@ -204,13 +204,13 @@ def _driver(nt, inp):
     from fast_ticc import matrix_compression as mc
     maxit = int(nt.get('maxit', 2))
     for cb in (bool(nt.get('cb')), not bool(nt.get('cb'))):
-        r = _driver_one(maxit, cb)
+        r = _driver_one(maxit, cb, nt.get('S_kind', 'real'))
         if r['reproduced']:
             return r
     return r
 
 
-def _driver_one(maxit, cb):
+def _driver_one(maxit, cb, S_kind='real'):
     from fast_ticc.admm import solver
     # the witness's own budget at rho = 1, and long runs at larger rho where the *dual* residual is the
     # binding half of the stopping rule (the engine's counterexample is about what the stopping rule is
@@ -223,9 +223,15 @@ def _driver_one(maxit, cb):
         rng = np.random.default_rng(4)
         A = rng.standard_normal((n, n))
         S = A @ A.T + np.eye(n)
+        S_given = S
+        if S_kind == 'int':
+            # the same kind of matrix with integer entries, handed over as an integer-dtype array
+            S_given = (np.rint(2 * S)).astype(np.int64)
+            S_given = np.maximum(S_given, S_given.T)
+            S = S_given.astype(float)
         upd = (lambda rho, rp, tp, rd, td: rho * 2.0 if rp > rd else rho / 2.0) if cb else None
         got = np.asarray(solver.run_admm_optimization(_args(N, W, lam, rho0, maxit=budget, rho_update=upd,
-                                                            atol=tol, rtol=tol), S), float)
+                                                            atol=tol, rtol=tol), S_given), float)
         x, k = _ref_admm(S, lam, N, W, rho0, budget, tol, upd)
         if got.shape != np.asarray(x).shape or not np.allclose(got, x, rtol=1e-7, atol=1e-9):
             return {'reproduced': True, 'signature': 'driver-differs-from-reference-iteration',
